@@ -920,7 +920,8 @@ func (g *generator) declareNumberConstraints(v cue.Value) ([]ast.TypeConstraint,
 
 	var constraints []ast.TypeConstraint
 	for _, part := range parts {
-		if part[0] != '<' && part[0] != '>' {
+		// bounds (`>=1`, `<10`) and exclusions (`!=0`); the other parts are types
+		if part[0] != '<' && part[0] != '>' && part[0] != '!' {
 			continue
 		}
 
